@@ -212,6 +212,22 @@ class SigmaCollection:
                     else:
                         raise exception
 
+        if collect_errors:  # errors while applying filters and resolving references are collected
+            collection = cls(
+                init_rules=parsed_rules,
+                errors=errors,
+                collect_filters=True,
+                resolve_references=False,
+            )
+            try:
+                if collection.filters and not collect_filters:
+                    collection.apply_filters(collection.filters)
+                if resolve_references:
+                    collection.resolve_rule_references()
+            except SigmaError as e:
+                collection.errors.append(e)
+            return collection
+
         return cls(
             init_rules=parsed_rules,
             errors=errors,
